@@ -1,0 +1,26 @@
+//go:build verif
+
+package sftp
+
+import "unsafe"
+
+// verifHook is installed by the verification harness (build tag "verif").
+// It is nil unless a harness sets it; every call site only observes.
+var verifHook func(point string, a, b uint64)
+
+func vhook(point string, a, b uint64) {
+	if h := verifHook; h != nil {
+		h(point, a, b)
+	}
+}
+
+// vhookPage reports a page by the address of its first byte.
+func vhookPage(point string, order uint32, page []byte) {
+	if h := verifHook; h != nil {
+		var addr uint64
+		if cap(page) > 0 {
+			addr = uint64(uintptr(unsafe.Pointer(&page[:1][0])))
+		}
+		h(point, uint64(order), addr)
+	}
+}
